@@ -6,6 +6,10 @@ LEVEL_NOTE = ("Trusted base: CPython 3.12 (/venv/bin/python), eval/tokenize/frac
               "oracles under /verif/vf, and that sfc_models imports from the /repo working tree (asserted at "
               "start, recorded in evidence).")
 CLAIMS = {
+ 'C06': ("shadow-ledger reference model replayed against recorded AddCashFlow histories, exact valuations; in-situ AddCashFlow wrapper",
+         "Held on K observed histories: after every registration F, INC and each flow definition of the real Sector equal a 30-line shadow ledger under exact valuations; exclusions of other sectors must not leak.", "3/C06"),
+ 'C14': ("by-construction reference classifier vs EquationParser lists, hostile-comment differential, description differential at model level",
+         "Held on K observed blocks: every generated line lands in its by-construction class with an equal-valued right-hand side, identically with hostile trailing comments; malformed lines are reported; hostile descriptions leave equations and series of book models unchanged.", "3/C14"),
  'C16': ("snapshot-before/after monitors on readers under caller-side mutation and repeated rendering; in-situ wrappers during book-model reads",
          "Held on K observed reader histories: every GetTimeSeries / GenerateCSVtext / CreateCsvString call is compared with the reference slice/table of a deep snapshot and the stored holders are compared after the call and after the caller mutates what was returned.", "3/C16"),
  'C19': ("reference renderer compared cell by cell, parse-back to format precision, row count after real solves",
